@@ -716,6 +716,13 @@ func runC19(rc *RunCtx) {
 		return
 	}
 	queues := []*[]func(){&qStorage, &qRns, &qTree, &qOracle, &qNotif}
+	// two export points the random block boundaries practically never produce (chosen by case number, so that the other
+	// cases' histories stay what they were): "early" = the whole (shortened) history sits in the chain's first block and the
+	// export is taken at height 1; "late" = the last block before the export lands two years after the previous one without
+	// being a reward block, so that whatever runs out with time (payment gauges, plans, files paid once) has run out but
+	// has not been swept yet
+	early := rc.Case%12 == 7
+	late := rc.Case%12 == 3 && C > 1
 	for {
 		var live []*[]func()
 		for _, q := range queues {
@@ -730,6 +737,12 @@ func runC19(rc *RunCtx) {
 		f := (*q)[0]
 		*q = (*q)[1:]
 		f()
+		if early {
+			if w.txs >= 25 {
+				break
+			}
+			continue
+		}
 		if rc.Chance(0.22) {
 			for k := 0; k < 1+rc.Intn(2); k++ {
 				if err := w.nextBlock(); err != nil {
@@ -743,7 +756,37 @@ func runC19(rc *RunCtx) {
 			}
 		}
 	}
-	if rc.Chance(0.4) {
+	if late {
+		if (c.Height+1)%C == 0 {
+			if _, err := c.NextBlock(6 * time.Second); err != nil {
+				rc.Abort("extra block: " + err.Error())
+				return
+			}
+		}
+		if _, err := c.NextBlock(2 * 365 * 24 * time.Hour); err != nil {
+			if pe, ok := err.(*chain.PanicError); ok {
+				rc.Abort("panic in the late block (C05 territory): " + pe.Error())
+			} else {
+				rc.Abort("late block: " + err.Error())
+			}
+			return
+		}
+		var gr storagetypes.QueryAllGaugesResponse
+		if err := c.GRPC("/canine_chain.storage.Query/Gauges", &storagetypes.QueryAllGauges{}, &gr); err == nil {
+			n := 0
+			for _, g := range gr.Gauges {
+				if g.End.Before(c.Ctx().BlockTime()) {
+					n++
+				}
+			}
+			rc.Count("ended_gauges_not_yet_swept_at_export", n)
+		}
+		rc.Count("exports_two_years_after_the_previous_block", 1)
+	} else if early {
+		if c.Height == 1 {
+			rc.Count("exports_at_height_1", 1)
+		}
+	} else if rc.Chance(0.4) {
 		// export at a height whose decimal spelling ends in 9 (keys that embed decimal heights sort as text, not as numbers)
 		for c.Height%10 != 9 {
 			if _, err := c.NextBlock(6 * time.Second); err != nil {
